@@ -85,7 +85,14 @@ def mk_measure(kind, rng, R, D, kappa=None, scale=None):
         Sig = gen.spd_batch(rng, R, D, kappa, scale, diag=diag)
         mu = gen.vec(rng, R, D)
         cls = L.pdf.GaussianDiagPDF if diag else L.pdf.GaussianPDF
-        obj = cls(Sigma=J(Sig), mu=J(mu))
+        # every accepted constructor argument combination is a legitimate way to build it
+        how = int(rng.integers(0, 3))
+        kw = {"Sigma": J(Sig), "mu": J(mu)}
+        if how >= 1:
+            kw["Lambda"] = J(orc.inv(Sig))
+        if how == 2:
+            kw["ln_det_Sigma"] = J(orc.slogdet(Sig))
+        obj = cls(**kw)
         return obj, truth_from_moments(mu, Sig)
     raise KeyError(kind)
 
@@ -95,6 +102,17 @@ def mk_pdf(rng, R, D, kappa=None, scale=None, diag=False):
 
 
 COND_KINDS = ("full", "diag", "identity", "identity_diag", "nn")
+
+
+def _cov_args(rng, Sig):
+    """a conditional may be given its covariance, its precision, or both with the log-determinant:
+    all three are accepted constructor argument combinations and must give the same object."""
+    how = int(rng.integers(0, 3))
+    if how == 0:
+        return {"Sigma": J(Sig)}
+    if how == 1:
+        return {"Lambda": J(orc.inv(Sig))}
+    return {"Sigma": J(Sig), "Lambda": J(orc.inv(Sig)), "ln_det_Sigma": J(orc.slogdet(Sig))}
 
 
 def mk_conditional(kind, rng, R, Dy, Dx, kappa=None, zero_M=False, Du=2):
@@ -108,7 +126,7 @@ def mk_conditional(kind, rng, R, Dy, Dx, kappa=None, zero_M=False, Du=2):
         Sig = gen.spd_batch(rng, R, Dy, kappa, diag=(kind == "identity_diag"))
         cls = C.ConditionalIdentityGaussianPDF if kind == "identity" else \
             C.ConditionalIdentityDiagGaussianPDF
-        obj = cls(Sigma=J(Sig))
+        obj = cls(**_cov_args(rng, Sig))
         M = np.tile(np.eye(Dy)[None], (R, 1, 1))
         b = np.zeros((R, Dy))
         return obj, Truth(M=M, b=b, Sigma=Sig), kw
@@ -117,7 +135,7 @@ def mk_conditional(kind, rng, R, Dy, Dx, kappa=None, zero_M=False, Du=2):
         M = gen.lin_map(rng, R, Dy, Dx, zero=zero_M)
         b = gen.vec(rng, R, Dy)
         cls = C.ConditionalGaussianPDF if kind == "full" else C.ConditionalGaussianDiagPDF
-        obj = cls(M=J(M), b=J(b), Sigma=J(Sig))
+        obj = cls(M=J(M), b=J(b), **_cov_args(rng, Sig))
         return obj, Truth(M=M, b=b, Sigma=Sig), kw
     if kind == "nn":
         # R is the number of control inputs; the object itself has one noise covariance
